@@ -42,4 +42,8 @@ theorem check_path_statedb_uses :
       [⟨"action/olvm.olvmTx.Validate", "StateDB.Enabled"⟩,
        ⟨"action/olvm.olvmTx.Validate", "StateDB.GetAccountKeeper"⟩] := by decide
 
+/-- the ABCI entry points the shell model ports are unchanged since the port was validated -/
+theorem entry_points_source_pinned :
+    OLP.Expect.pinnedOf OLP.Gen.pinned (pinnedShell.map (fun r => r.fn)) = pinnedShell := by decide
+
 end OLP.Props.C07.Facts
